@@ -23,7 +23,7 @@ def check(tier):
             'of the Recommendation over independently read document facts): after every step that returns OK from a legal pre-state the configuration '
             'equals sps_config(configuration, history, sps_select(answers of is_matched/is_true)) - obligations C04.select / C04.step; for charts with '
             'the log convention (generated charts, corpus/c12) the onexit / transition / onentry blocks that ran are exactly exit set / optimal '
-            'transition set / entry set, in the prescribed order (C04.content / C04.order); done events C04.done. In documents with nested histories '
+            'transition set / entry set, in the prescribed order (C04.content / C04.order); for corpus/c17 (numbered executable elements) every callback is invoked for exactly the element the control flow of the handler block prescribes - sequence, <if>/<elseif>/<else> chains, <foreach> - with the flow read from the XML; invocations are managed only at the end of a macrostep; done events C04.done. In documents with nested histories '
             'the spec-function clauses are asserted only for steps whose entry set involves no history element. The SECOND sentence of C04 (no out-of-bounds access) is decided for all contexts; of the FIRST '
             'sentence the reference is the Recommendation\'s algorithm, NOT the interpreter\'s trace - the interpreter is C++ and out of reach.')
     return genc_common.account('C04', tier, want, expl, 'translation_validation')
